@@ -78,6 +78,8 @@ def dec(v):
     (k, x), = v.items()
     if k == "n":
         return None
+    if k == "nan":
+        return float("nan")
     if k == "b":
         return bool(x)
     if k == "i":
@@ -104,7 +106,9 @@ def enc(o):
     if isinstance(o, int):
         return {"i": o}
     if isinstance(o, float):
-        if o != o or o in (float("inf"), float("-inf")):
+        if o != o:
+            return {"nan": 0}
+        if o in (float("inf"), float("-inf")):
             return {"s": "float:" + repr(o)}
         fr = Fraction(o)
         return {"f": [fr.numerator, fr.denominator]}
@@ -127,6 +131,8 @@ def freeze(o):
         return ("l",) + tuple(freeze(e) for e in o)
     if isinstance(o, _abc.Mapping):
         return ("d", frozenset((freeze(a), freeze(b)) for a, b in o.items()))
+    if isinstance(o, float) and o != o:
+        return "<nan>"          # nan != nan: as a key every nan counts as the same value
     return o
 
 
@@ -278,3 +284,39 @@ class Scripted:
             self.learn_calls.append(("rejected",))
             raise NotBatchable("this learner cannot learn from batches")
         self.learn_calls.append((batched, context, action, reward, probability, kwargs))
+
+
+class ScriptedNoScore(Scripted):
+    """a learner without any `score` attribute (looking it up raises CPython's AttributeError)"""
+    @property
+    def score(self):
+        raise AttributeError("'ScriptedNoScore' object has no attribute 'score'")
+
+
+class ScriptedBaseScore(Scripted):
+    """a learner that inherits the `score` of coba.primitives.Learner (NotImplementedError)"""
+    def score(self, context, actions, action):
+        self.score_calls.append(("base",))
+        raise NotImplementedError("The `score` interface has not been implemented for this learner.")
+
+
+SCORE_EXC = {"AttributeError": AttributeError, "KeyError": KeyError, "TypeError": TypeError, "ValueError": ValueError}
+
+
+class ScriptedFailingScore(Scripted):
+    """a learner whose implemented `score` always raises case["score_kind"] = ["raises", exception class name, message]"""
+    def score(self, context, actions, action):
+        self.score_calls.append(("raises",))
+        _, cls, msg = self.case["score_kind"]
+        raise SCORE_EXC[cls](msg)
+
+
+def make_learner(case):
+    kind = case.get("score_kind", "normal")
+    if kind == "absent":
+        return ScriptedNoScore(case)
+    if kind == "base":
+        return ScriptedBaseScore(case)
+    if isinstance(kind, list):
+        return ScriptedFailingScore(case)
+    return Scripted(case)
